@@ -17,6 +17,7 @@ import (
 	"sync/atomic"
 	"time"
 
+	"rare/pkg/extractor"
 	"rare/pkg/extractor/batchers"
 	"rare/pkg/followreader"
 	. "verifh/lib"
@@ -39,6 +40,7 @@ type c15In struct {
 	Script   []c15Op `json:"script"`
 	Class    string  `json:"class"`
 	PathForm string  `json:"path_form,omitempty"` // how the followed path is spelled (the writer always uses the plain absolute path): "" | clean | dot | dslash | updown | relative | dotrel | symdir
+	Batch    int     `json:"batch,omitempty"` // via batcher: batch size (0 = 1: every line is a full batch; larger: partial batches leave on the 250 ms flush)
 	Via      string  `json:"via,omitempty"` // "" = followreader.New directly; "batcher" = batchers.TailFilesToChan (batch size 1)
 }
 type c15Ent struct {
@@ -190,7 +192,11 @@ func c15Run(in c15In) (out c15Out) {
 		names := make(chan string, 1)
 		names <- follow
 		close(names)
-		b := batchers.TailFilesToChan(names, 1, 4, in.Reopen, in.Poll, in.Tail)
+		bsz := in.Batch
+		if bsz <= 0 {
+			bsz = 1
+		}
+		b := batchers.TailFilesToChan(names, bsz, 4, in.Reopen, in.Poll, in.Tail)
 		t0 := time.Now()
 		for b.ActiveFileCount() == 0 && b.ReadErrors() == 0 && time.Since(t0) < stallLimit {
 			time.Sleep(100 * time.Microsecond)
@@ -200,7 +206,12 @@ func c15Run(in c15In) (out c15Out) {
 		}
 		go func() {
 			defer close(done)
+			// The consumer is a little behind and HOLDS every batch it received (as the extractor workers do while
+			// they process it): the lines are logged when received, the delivered stream is what the held batches
+			// contain at the very end.
+			var held [][]extractor.BString
 			for batch := range b.BatchChan() {
+				held = append(held, batch.Batch)
 				R.mu.Lock()
 				for _, line := range batch.Batch {
 					l := append(append([]byte(nil), line...), '\n')
@@ -208,8 +219,18 @@ func c15Run(in c15In) (out c15Out) {
 					R.delivered = append(R.delivered, l...)
 				}
 				R.mu.Unlock()
+				if bsz > 1 {
+					time.Sleep(2 * time.Millisecond)
+				}
+			}
+			var final []byte
+			for _, hb := range held {
+				for _, line := range hb {
+					final = append(append(final, line...), '\n')
+				}
 			}
 			R.mu.Lock()
+			R.delivered = final
 			R.log = append(R.log, c15Ent{K: 4})
 			R.ended, R.term = true, 1
 			R.mu.Unlock()
@@ -344,7 +365,9 @@ func c15Run(in c15In) (out c15Out) {
 			b, _ := hex.DecodeString(op.Data)
 			R.mu.Lock()
 			R.log = append(R.log, c15Ent{0, op.Data})
-			R.written += len(b)
+			if in.Reopen || removes == 0 { // plain follow: nothing written after the removal has to be delivered
+				R.written += len(b)
+			}
 			R.mu.Unlock()
 			err = appendFile(b)
 		case "remove":
@@ -365,7 +388,9 @@ func c15Run(in c15In) (out c15Out) {
 			b, _ := hex.DecodeString(op.Data)
 			R.mu.Lock()
 			R.log = append(R.log, c15Ent{0, op.Data})
-			R.written += len(b)
+			if in.Reopen || removes == 0 { // plain follow: nothing written after the removal has to be delivered
+				R.written += len(b)
+			}
 			R.mu.Unlock()
 			atomic.StoreInt32(&pauseReq, 1)
 			err = appendFile(b)
@@ -541,6 +566,18 @@ func c15Case(in c15In) Case {
 			break
 		}
 	}
+	// plain follow and the path is re-created after the removal
+	seenRemove, recreated := false, false
+	for _, op := range in.Script {
+		if op.Op == "remove" {
+			seenRemove = true
+		} else if op.Op == "create" && seenRemove {
+			recreated = true
+		}
+	}
+	if !in.Reopen && recreated {
+		tags = append(tags, "plain-recreated") // (polling: the input class of the fixed finding C15-poll-plain-recreate)
+	}
 	kb, _ := json.Marshal(in)
 	return Case{
 		Coq:        coq,
@@ -571,6 +608,19 @@ func (g *gen) data(n int) string {
 }
 func (g *gen) wait() int {
 	return Pick(g.r, []int{0, 0, 0, 20, 80, 300, 1000, 2500})
+}
+
+// plain follow, after the removal: the path is re-created (at once, or after 1..50 ms; empty, or with content).
+// The stream has to end all the same and nothing of the new file is delivered.
+func (g *gen) recreate(in *c15In) {
+	r := g.r
+	if in.Reopen || r.Chance(1, 4) {
+		return
+	}
+	in.Script = append(in.Script, c15Op{Op: "create", WaitUs: Pick(r, []int{0, 0, 0, 1000, 5000, 20000, 50000})})
+	if r.Chance(1, 2) {
+		in.Script = append(in.Script, c15Op{Op: "append", Data: g.data(r.Range(1, 9)), WaitUs: Pick(r, []int{0, 0, 300, 3000})})
+	}
 }
 
 // one case of a class; budget = number of writer operations
@@ -612,11 +662,31 @@ func (g *gen) mk(class string, poll, reopen, tail bool, budget int) c15In {
 			add(c15Op{Op: "append", Data: g.data(r.Range(0, 9)) + "0a", WaitUs: g.wait(), Sync: r.Chance(1, 4)})
 		}
 		add(c15Op{Op: "remove", WaitUs: g.wait()})
+	case "batcher-burst": // TailFilesToChan with a real batch size: a partial batch leaves on the 250 ms flush (it is
+		// triggered by the first line of the burst), the rest of the burst is scanned right behind it
+		in.Via, in.Batch = "batcher", 64
+		ls := g.data(r.Range(0, 10)) + "0a"
+		in.C0 = &ls
+		lines := func(k int) string {
+			d := ""
+			for ; k > 0; k-- {
+				d += g.data(r.Range(1, 8)) + "0a"
+			}
+			return d
+		}
+		for round := r.Range(2, 3); round > 0; round-- {
+			add(c15Op{Op: "append", Data: lines(r.Range(1, 3)), WaitUs: g.wait()})
+			add(c15Op{Op: "append", Data: lines(r.Range(2, 6)), WaitUs: r.Range(300000, 400000)})
+		}
+		// exactly one line: it is the one that triggers the timed flush of everything held so far
+		add(c15Op{Op: "append", Data: hex.EncodeToString([]byte{'e', 'n', 'd', byte('0' + r.Intn(10)), '\n'}), WaitUs: r.Range(300000, 400000)})
+		add(c15Op{Op: "remove", WaitUs: g.wait()})
 	case "remove-at-end":
 		for i := 0; i < budget-1; i++ {
 			app(r.Range(1, 9), r.Chance(1, 5))
 		}
 		add(c15Op{Op: "remove", WaitUs: g.wait()})
+		g.recreate(&in)
 	case "missing-at-start":
 		add(c15Op{Op: "create", WaitUs: g.wait()})
 		for i := 0; i < budget-1; i++ {
@@ -640,7 +710,8 @@ func (g *gen) mk(class string, poll, reopen, tail bool, budget int) c15In {
 			size += n
 			prev := size
 			add(c15Op{Op: "remove", WaitUs: Pick(r, []int{0, 0, 50, 300})})
-			if !reopen { // plain follow: the stream has to end when reading resumes
+			if !reopen { // plain follow: the stream has to end when reading resumes, also when the path exists again by then
+				g.recreate(&in)
 				add(c15Op{Op: "resume", WaitUs: Pick(r, []int{200, 1000, 3000})})
 				break
 			}
@@ -719,6 +790,7 @@ func c15Plan(r *Rng, n int, notify bool) []c15In {
 		{"double-rotate", true, true}, {"batcher", false, false},
 		{"paused-rotate", false, true}, {"paused-rotate", false, true}, {"paused-rotate", false, true},
 		{"paused-rotate", true, true}, {"paused-rotate", false, false},
+		{"batcher-burst", false, false}, {"paused-rotate", true, false}, {"remove-at-end", false, false},
 	}
 	formOff := r.Intn(len(pathForms))
 	for i := 0; len(ins) < n; i++ {
@@ -727,6 +799,9 @@ func c15Plan(r *Rng, n int, notify bool) []c15In {
 			c.poll = true
 		}
 		tail := r.Chance(1, 3) && c.name != "missing-at-start"
+		if c.name == "batcher-burst" {
+			tail = (i/len(classes))%2 == 1
+		}
 		if c.name == "batcher" { // alternate, so that both branches of tailBatcher.go are taken in every run
 			tail = (i/len(classes))%2 == 0
 		}
@@ -793,6 +868,8 @@ func main() {
 			"rotation = remove after drain, re-create, append (polling: first append shorter than the removed file and drained before the next); file missing at start with re-open; " +
 			"every class x spelling of the followed path {clean absolute, dir/./f, dir//f, dir/sub/../f, relative to the working directory, ./relative, through a symlinked directory} (the writer uses the plain name); " +
 			"1..5 operations on OTHER entries of the directory (old-followed.log, xfollowed.log, followed.log.1, followed.log~, followed, sibdir/followed.log, directory followed.log.d: create+remove, write, rename, directory with a file) inserted at random positions of every script; " +
+			"plain follow: after the removal the path is re-created at once or after 1..50 ms, empty or with content (the stream has to end, nothing of the new file is delivered; notify and poll); " +
+			"batcher-burst: TailFilesToChan with batch size 64, [1-3 lines, 300-400 ms, burst of 2-6 lines] x 2-3, the consumer holds every batch and re-reads all of them at the end; " +
 			"double rotation remove/create/remove/create without pauses (an empty middle file: with notify re-open the domain of finding C15-notify-stale-delete); " +
 			"paused consumer: the consumer leaves Read after draining, the writer removes, re-creates and appends, the consumer resumes after 0.3..4 ms so that delete, create and write notifications are pending together and the select serves them in arbitrary order, 4 rounds per case) x {notify, poll} x {re-open, plain} x {tail, from start}, read buffer in {1,2,3,7,64,4096}. " +
 			"distinct = distinct (flags, initial content, script with timing); non-trivial = at least two appends or a removal. " +
